@@ -63,7 +63,7 @@ def e2e_replay(rep, bfile, orders, props, what, chunk=500, procs=8):
         open(p, "w").write("\n".join(lines[i:i + chunk]) + "\n")
         files.append(p)
     with ThreadPoolExecutor(max_workers=procs) as ex:
-        parts = list(ex.map(lambda p: ejson(["replay", p, "--poller", orders["poller"], "--client", orders["client"]]), files))
+        parts = list(ex.map(lambda p: ejson(["replay", p, "--poller", orders["poller"], "--client", orders["client"], "--stop-on", ",".join(sorted(props))]), files))
     import shutil
     shutil.rmtree(cdir, ignore_errors=True)
     res = {"behaviours": 0, "steps": 0, "comparisons": 0, "violations": [], "drifts": []}
